@@ -252,6 +252,9 @@ def one_case(ctx, prog, vec=None, label="gen"):
 
     # ---- oracle: the property sentence on the real instance
     if r_inst[0] != "ok":
+        if r_inst[1].split(":")[0] in ("ZeroDivisionError", "OverflowError", "ValueError"):
+            ctx.hit("user-arithmetic-raised:" + r_inst[1].split(":")[0])  # e.g. p / (q - q): not the library's doing
+            return
         if not contains_missing_or_domain(mi):
             ctx.fail("C01-instance-raises", "instance_from_vector raised for a vector of the right length", case, r_inst[1])
         return
